@@ -168,6 +168,7 @@ class Sched(object):
         self.monitor = monitor
         self.root = root  # scratch directory of this execution (paths are relativised to it)
         self.locks = {}  # relpath -> pid holding
+        self.flocks = {}  # relpath -> pid holding an OS-level (flock) lock on that file
         self.fs = {}  # relpath -> content digest
         self.vprocs = []  # (parent pid, VProcess) in start order: multiprocessing.active_children()
         self.writing = {}  # relpath -> pid between write-begin and write-end
@@ -374,6 +375,12 @@ class Sched(object):
                     acts.append(Action("%s:lock-timeout(%s)" % (n, path), p, "timeout", self._mk_exc(p, filelock.Timeout(path)), 3))
             elif k == "unlock":
                 acts.append(Action("%s:unlock(%s)" % (n, op[1]), p, "unlock", self._mk_unlock(p, op[1]), 1))
+            elif k == "flock":
+                # an OS-level lock on the file: exclusive among flock users only; the file is created and stays
+                if op[1] not in self.flocks:
+                    acts.append(Action("%s:flock(%s)" % (n, op[1]), p, "flock", self._mk_flock(p, op[1]), 1))
+            elif k == "funlock":
+                acts.append(Action("%s:funlock(%s)" % (n, op[1]), p, "funlock", self._mk_funlock(p, op[1]), 1))
             elif k == "read":
                 acts.append(Action("%s:read(%s)" % (n, op[1]), p, "read", self._mk_read(p, op[1]), 1))
             elif k == "wbegin":
@@ -554,6 +561,25 @@ class Sched(object):
                 os.makedirs(os.path.dirname(full), exist_ok=True)
                 fd = os.open(full, os.O_CREAT | os.O_EXCL | os.O_WRONLY)
                 os.close(fd)
+            self._resume(p)
+
+        return fn
+
+    def _mk_flock(self, p, path):
+        def fn():
+            self.flocks[path] = p.pid
+            if self.root:
+                full = os.path.join(self.root, path)
+                os.makedirs(os.path.dirname(full), exist_ok=True)
+                open(full, "ab").close()  # flock users create the lock file if need be and never remove it
+            self._resume(p)
+
+        return fn
+
+    def _mk_funlock(self, p, path):
+        def fn():
+            if self.flocks.get(path) == p.pid:
+                self.flocks.pop(path, None)
             self._resume(p)
 
         return fn
@@ -792,6 +818,22 @@ class VSoftFileLock(object):
         return self._held > 0
 
 
+class VFileLock(VSoftFileLock):
+    """filelock.FileLock (flock/fcntl based): excludes other flock users of the same file, not marker locks."""
+
+    def acquire(self, timeout=None, poll_interval=0.05, **k):
+        if self._held == 0:
+            self.sched.op("flock", self.sched.rel(self.lock_file))
+        self._held += 1
+        return self
+
+    def release(self, force=False):
+        if self._held > 0:
+            self._held -= 1
+            if self._held == 0:
+                self.sched.op("funlock", self.sched.rel(self.lock_file))
+
+
 def _break_marker(path):
     try:
         _REAL_UNLINK(path)
@@ -836,6 +878,20 @@ class Patched(object):
         multiprocessing.Event = VEvent
         multiprocessing.Process = VProcess
         filelock.SoftFileLock = VSoftFileLock
+        self.real_flock_classes = (filelock.FileLock, getattr(filelock, "UnixFileLock", None))
+        filelock.FileLock = VFileLock
+        if self.real_flock_classes[1] is not None:
+            filelock.UnixFileLock = VFileLock
+        # process role: the main virtual process is a top-level process, the others are its children
+        self.real_parent_process = multiprocessing.parent_process
+
+        def parent_process():
+            pr = current_proc()
+            if pr is None:
+                return self.real_parent_process()
+            return None if getattr(pr, "parent_pid", None) is None else _ParentHandle(100000 + pr.parent_pid)
+
+        multiprocessing.parent_process = parent_process
         orig_read, orig_write = self.saved[4], self.saved[5]
         sched = self.sched
 
@@ -967,6 +1023,10 @@ class Patched(object):
             pyramid.PyramidIO.write_image,
             sys.stdout,
         ) = self.saved
+        filelock.FileLock = self.real_flock_classes[0]
+        if self.real_flock_classes[1] is not None:
+            filelock.UnixFileLock = self.real_flock_classes[1]
+        multiprocessing.parent_process = self.real_parent_process
         os.unlink = self.real_unlink
         os.remove = self.real_remove
         os.replace, os.rename = self.real_replace, self.real_rename
@@ -978,6 +1038,15 @@ class Patched(object):
         multiprocessing.active_children = self.real_active_children
         CURRENT = None
         return False
+
+
+class _ParentHandle(object):
+    def __init__(self, pid):
+        self.pid = pid
+        self.name = "MainProcess"
+
+    def is_alive(self):
+        return True
 
 
 class _Null(object):
